@@ -18,6 +18,7 @@ from vlib import zlit
 import c01_util as U
 from c01_util import blit
 import c01_sites
+import c02_live2
 
 LEVEL = 'proof'
 META = {
@@ -132,6 +133,7 @@ def l4_send_impl(c, user, data):
 
 
 L4_PREAMBLE = U.PREAMBLE + '''
+From TV Require Import Model.C02_RecordAccept.
 Definition L4Case := (Cfg * Prim TCS * St TCS * Z * list Z * list (list Z) * Z * list Z)%type.
 Definition chk_l4 (k : L4Case) : bool :=
   let '(c, P, s, user, data, exp, fseq, fcs) := k in
@@ -157,6 +159,12 @@ Definition chk_read (k : ReadCase) : bool :=
   let '(calls, arr, exp) := k in
   let '(outs, _, _, _) := read_calls_c calls [] false arr in
   (zlen outs =? zlen exp) && forallb (fun p => list_eqb (fst p) (snd p)) (combine outs exp).
+Definition KuCase := (list ku_op * (nat * nat * nat * nat))%type.
+Definition chk_ku (k : KuCase) : bool :=
+  let '(ops, (ao, ap, bo, bp)) := k in
+  let s := fold_left ku_step ops ku_init in
+  Nat.eqb (ku_own (ku_a s)) ao && Nat.eqb (ku_peer (ku_a s)) ap && Nat.eqb (ku_own (ku_b s)) bo && Nat.eqb (ku_peer (ku_b s)) bp
+  && Nat.eqb (ku_wr (ku_a s)) ao && Nat.eqb (ku_rd (ku_a s)) ap && Nat.eqb (List.length (ku_ab s)) 0.
 Definition LimCase := (bool * bool * Z * Z * Z * Z)%type.
 Definition chk_lim (k : LimCase) : bool :=
   let '(t13, client, ext, own, isend, irecv) := k in
@@ -585,7 +593,7 @@ def jbytes(b):
 
 def run(ctx):
     quick = ctx.tier == 'quick'
-    res = vlib.proof_stage(ctx, 'Props/C01.v', model_targets=['Model/C01_RecordPipe.vo', 'Toy/C01_ToyCipher.vo'])
+    res = vlib.proof_stage(ctx, 'Props/C01.v', model_targets=['Model/C01_RecordPipe.vo', 'Model/C02_RecordAccept.vo', 'Toy/C01_ToyCipher.vo'])
     ctx.log('proof stage ok=%s failing=%s' % (res['ok'], res['failing']))
     ctx.cov['trusted_base'] = [
         'Coq 8.16.1 kernel + vm_compute (case evaluation)',
@@ -734,6 +742,10 @@ def run(ctx):
                             jobs.append((ver, ci, m, etm, 2 ** 14 + 1, 2 ** 14 + 1, 2 ** 14, 2 ** 14, ctx.rng.randrange(1 << 30), quick, None,
                                          (('close', (n, frame, how, ctx.rng.choice('cs'))),)))
         results = pool.map(conn_case, jobs, chunksize=1)
+        # TLS 1.3 KeyUpdate histories: requested / unsolicited, both roles, sequential and crossing, data after each
+        ku_jobs = [(ci, ctx.rng.randrange(1 << 30), 6 if quick else 10)
+                   for ci in ('aes128gcm', 'chacha20-poly1305', 'aes256gcm', 'aes128ccm') for _ in range(4 if quick else 20)]
+        ku_results = pool.map(c02_live2.ku_history_case, ku_jobs)
     finally:
         pool.close()
         pool.join()
@@ -767,6 +779,24 @@ def run(ctx):
                 carried = min(ext, 2 ** 14 + 1 if t13 else 2 ** 14) if client else ext
                 lim_lits.append('(%s, %s, %d, %d, %d, %d)' % (vlib.boollit(t13), vlib.boollit(client), carried, own, isend, irecv))
     ctx.log('live connections: %d run, %d skipped' % (len(results) - nskip, nskip))
+    ku_lits = []
+    for r in ku_results:
+        if r.get('skip'):
+            continue
+        ctx.count('keyupdate-history', len(r['ops']), [tuple(r['ops'][:3])])
+        for suffix, text in r['viol']:
+            found = True
+            ctx.violation('live:%s:keyupdate-history' % suffix, 'TLS 1.3 %s: %s' % (r['args'][0], text),
+                          {'ku_history_args': list(r['args']), 'ops': [list(o) for o in r['ops']],
+                           'how': 'harness/c02_live2.py ku_history_case(args)'})
+        if r['gens'] is not None:
+            g = r['gens']
+            if min(g) < 0:
+                found = True
+                ctx.violation('live:keyupdate-stored-secret:keyupdate-history', 'a stored traffic secret is not on the HKDF chain of its direction',
+                              {'ku_history_args': list(r['args']), 'gens': g})
+            else:
+                ku_lits.append('([%s], (%d, %d, %d, %d)%%nat)' % (';'.join(c02_live2.ku_model_ops(r['ops'])), g[0], g[1], g[2], g[3]))
     # every assignment to the record-size-limit state in /repo against the table limit_in_force was written for
     lim_diffs, _ = c01_sites.diff_sites(vlib.REPO)
     ctx.count('limit-sites', len(c01_sites.EXPECTED_LIMIT_SITES), [('sites', len(lim_diffs))])
@@ -779,7 +809,8 @@ def run(ctx):
             return max(8, (n + 7) // 8)
         kinds = (('C01s', 'SendCase', 'chk_send', send_lits), ('C01r', 'RecvCase', 'chk_recv', recv_lits),
                  ('C01f', 'L4Case', 'chk_l4', l4_lits), ('C01b', 'ReadCase', 'chk_read', read_lits),
-                 ('C01n', 'LenCase', 'chk_len', len_lits), ('C01m', 'LimCase', 'chk_lim', sorted(set(lim_lits))))
+                 ('C01n', 'LenCase', 'chk_len', len_lits), ('C01m', 'LimCase', 'chk_lim', sorted(set(lim_lits))),
+                 ('C01k', 'KuCase', 'chk_ku', ku_lits))
         from multiprocessing.pool import ThreadPool
         with ThreadPool(3) as tp:          # the evaluations are independent coqc runs: overlap them
             evals = tp.map(lambda k: vlib.coq_bad_indices(k[0], U.IMPORTS, k[1], k[2], k[3], shard=shard(len(k[3])),
@@ -825,6 +856,10 @@ def replay(ctx, path):
             a[11] = tuple((k, tuple(v) if isinstance(v, list) else v) for k, v in a[11])
         out = conn_case(tuple(a))
         print('violations:', out['viol'], 'stats:', out['stats'])
+        return 1 if out['viol'] else 0
+    if 'ku_history_args' in r:
+        out = c02_live2.ku_history_case(tuple(r['ku_history_args']))
+        print(out)
         return 1 if out['viol'] else 0
     if 'cfg' in r and 'recs' in r:
         c = r['cfg']
